@@ -15,6 +15,7 @@ import (
 	mlkem1024 "github.com/cloudflare/circl/kem/mlkem/mlkem1024"
 	mlkem512 "github.com/cloudflare/circl/kem/mlkem/mlkem512"
 	mlkem768t "github.com/cloudflare/circl/kem/mlkem/mlkem768"
+	"github.com/cloudflare/circl/kem/xwing"
 	mode2 "github.com/cloudflare/circl/sign/dilithium/mode2"
 	mode3 "github.com/cloudflare/circl/sign/dilithium/mode3"
 	mode5 "github.com/cloudflare/circl/sign/dilithium/mode5"
@@ -516,9 +517,17 @@ func init() {
 			pk, sk := frodo640shake.Scheme().DeriveKeyPair(seed)
 			return pk.(*frodo640shake.PublicKey), sk.(*frodo640shake.PrivateKey)
 		},
-		newPK:  func() any { return new(frodo640shake.PublicKey) }, newSK: func() any { return new(frodo640shake.PrivateKey) },
-		packPK: func(k any) []byte { b := make([]byte, frodo640shake.PublicKeySize); k.(*frodo640shake.PublicKey).Pack(b); return b },
-		packSK: func(k any) []byte { b := make([]byte, frodo640shake.PrivateKeySize); k.(*frodo640shake.PrivateKey).Pack(b); return b },
+		newPK: func() any { return new(frodo640shake.PublicKey) }, newSK: func() any { return new(frodo640shake.PrivateKey) },
+		packPK: func(k any) []byte {
+			b := make([]byte, frodo640shake.PublicKeySize)
+			k.(*frodo640shake.PublicKey).Pack(b)
+			return b
+		},
+		packSK: func(k any) []byte {
+			b := make([]byte, frodo640shake.PrivateKeySize)
+			k.(*frodo640shake.PrivateKey).Pack(b)
+			return b
+		},
 		unpackPK: func(k any, b []byte) bool {
 			if len(b) != frodo640shake.PublicKeySize {
 				return false
@@ -537,6 +546,30 @@ func init() {
 			ct, ss, ss2 := make([]byte, frodo640shake.CiphertextSize), make([]byte, frodo640shake.SharedKeySize), make([]byte, frodo640shake.SharedKeySize)
 			pk.(*frodo640shake.PublicKey).EncapsulateTo(ct, ss, r.Bytes(frodo640shake.EncapsulationSeedSize))
 			sk.(*frodo640shake.PrivateKey).DecapsulateTo(ss2, ct)
+			return append(append(ct[:32:32], ss...), ss2...)
+		}})
+	typedKits = append(typedKits, typedKit{name: "kem/xwing", seedLen: xwing.SeedSize,
+		newKeys: func(seed []byte) (any, any) { sk, pk := xwing.DeriveKeyPair(seed); return pk, sk },
+		newPK:   func() any { return new(xwing.PublicKey) }, newSK: func() any { return new(xwing.PrivateKey) },
+		packPK: func(k any) []byte { b := make([]byte, xwing.PublicKeySize); k.(*xwing.PublicKey).Pack(b); return b },
+		packSK: func(k any) []byte { b := make([]byte, xwing.PrivateKeySize); k.(*xwing.PrivateKey).Pack(b); return b },
+		unpackPK: func(k any, b []byte) bool {
+			if len(b) != xwing.PublicKeySize {
+				return false
+			}
+			return k.(*xwing.PublicKey).Unpack(b) == nil
+		},
+		unpackSK: func(k any, b []byte) bool {
+			if len(b) != xwing.PrivateKeySize {
+				return false
+			}
+			k.(*xwing.PrivateKey).Unpack(b)
+			return true
+		},
+		use: func(pk, sk any, r *core.PRNG) []byte {
+			ct, ss, ss2 := make([]byte, xwing.CiphertextSize), make([]byte, xwing.SharedKeySize), make([]byte, xwing.SharedKeySize)
+			pk.(*xwing.PublicKey).EncapsulateTo(ct, ss, r.Bytes(xwing.EncapsulationSeedSize))
+			sk.(*xwing.PrivateKey).DecapsulateTo(ss2, ct)
 			return append(append(ct[:32:32], ss...), ss2...)
 		}})
 }
